@@ -11,10 +11,13 @@ import (
 	"sync"
 	"time"
 
+	"github.com/go-logr/logr"
+	corev1 "k8s.io/api/core/v1"
 	metav1 "k8s.io/apimachinery/pkg/apis/meta/v1"
 	"k8s.io/apimachinery/pkg/util/intstr"
 
 	edsv1 "github.com/DataDog/extendeddaemonset/api/v1alpha1"
+	"github.com/DataDog/extendeddaemonset/controllers/extendeddaemonsetreplicaset/scheduler"
 	"github.com/DataDog/extendeddaemonset/pkg/controller/utils"
 )
 
@@ -33,6 +36,89 @@ type FnVector struct {
 	Kind   string         `json:"kind"`
 	Status map[string]int `json:"status"`
 	Flags  map[string]bool `json:"flags"`
+	// fitness
+	Node        *FitNode          `json:"node"`
+	Sel         map[string]string `json:"sel"`
+	Affinity    *FitAffinity      `json:"affinity"`
+	Tolerations []FitToleration   `json:"tolerations"`
+}
+
+// FitNode, FitAffinity, ... are the fitness vectors of Gen_Fitness.tla.
+type FitNode struct {
+	Name   string            `json:"name"`
+	Labels map[string]string `json:"labels"`
+	Taints []struct {
+		Key, Value, Effect string
+	} `json:"taints"`
+}
+
+// FitExpr is a node selector requirement.
+type FitExpr struct {
+	Key    string   `json:"key"`
+	Op     string   `json:"op"`
+	Values []string `json:"values"`
+}
+
+// FitAffinity is the required node affinity of a vector.
+type FitAffinity struct {
+	Kind  string `json:"kind"`
+	Terms []struct {
+		Exprs  []FitExpr `json:"exprs"`
+		Fields []FitExpr `json:"fields"`
+	} `json:"terms"`
+}
+
+// FitToleration is a toleration of a vector.
+type FitToleration struct {
+	Key    string `json:"key"`
+	Op     string `json:"op"`
+	Value  string `json:"value"`
+	Effect string `json:"effect"`
+}
+
+func fnFitness(v *FnVector) map[string]interface{} {
+	node := &corev1.Node{ObjectMeta: metav1.ObjectMeta{Name: v.Node.Name, Labels: map[string]string{}}}
+	for k, x := range v.Node.Labels {
+		if x != "" {
+			node.Labels[k] = x
+		}
+	}
+	for _, t := range v.Node.Taints {
+		node.Spec.Taints = append(node.Spec.Taints, corev1.Taint{Key: t.Key, Value: t.Value, Effect: corev1.TaintEffect(t.Effect)})
+	}
+	pod := &corev1.Pod{}
+	for k, x := range v.Sel {
+		if x != "" {
+			if pod.Spec.NodeSelector == nil {
+				pod.Spec.NodeSelector = map[string]string{}
+			}
+			pod.Spec.NodeSelector[k] = x
+		}
+	}
+	reqs := func(es []FitExpr) []corev1.NodeSelectorRequirement {
+		var out []corev1.NodeSelectorRequirement
+		for _, e := range es {
+			out = append(out, corev1.NodeSelectorRequirement{Key: e.Key, Operator: corev1.NodeSelectorOperator(e.Op), Values: e.Values})
+		}
+		return out
+	}
+	switch v.Affinity.Kind {
+	case "preferredOnly":
+		pod.Spec.Affinity = &corev1.Affinity{NodeAffinity: &corev1.NodeAffinity{PreferredDuringSchedulingIgnoredDuringExecution: []corev1.PreferredSchedulingTerm{{Weight: 1,
+			Preference: corev1.NodeSelectorTerm{MatchExpressions: []corev1.NodeSelectorRequirement{{Key: "k1", Operator: corev1.NodeSelectorOpIn, Values: []string{"zzz"}}}}}}}}
+	case "required":
+		ns := &corev1.NodeSelector{NodeSelectorTerms: []corev1.NodeSelectorTerm{}}
+		for _, t := range v.Affinity.Terms {
+			ns.NodeSelectorTerms = append(ns.NodeSelectorTerms, corev1.NodeSelectorTerm{MatchExpressions: reqs(t.Exprs), MatchFields: reqs(t.Fields)})
+		}
+		pod.Spec.Affinity = &corev1.Affinity{NodeAffinity: &corev1.NodeAffinity{RequiredDuringSchedulingIgnoredDuringExecution: ns}}
+	}
+	for _, t := range v.Tolerations {
+		pod.Spec.Tolerations = append(pod.Spec.Tolerations, corev1.Toleration{Key: t.Key, Operator: corev1.TolerationOperator(t.Op), Value: t.Value, Effect: corev1.TaintEffect(t.Effect)})
+	}
+	fit := false
+	p := safely(func() { fit = scheduler.CheckNodeFitness(logr.Discard(), pod, node) })
+	return map[string]interface{}{"fit": fit, "panic": p}
 }
 
 func safely(f func()) (panicked bool) {
@@ -348,6 +434,8 @@ func runFn(a CLIArgs) int {
 					out = fnDefaults(&v)
 				case "metrics":
 					out = fnMetrics(&v)
+				case "fitness":
+					out = fnFitness(&v)
 				default:
 					bad[i] = fmt.Errorf("unknown fn %s", v.Fn)
 					continue
